@@ -8,7 +8,7 @@
      RequireTimeStart lock  -> lock `lteNegInfty` txStart   (SNothing -> False)
      RequireTimeExpire lock -> txExpire `ltePosInfty` lock  (SNothing -> False)
    (Dijkstra) RequireGuard c -> c is one of the transaction's guards. *)
-From V Require Import Lib.Base C29.Model.
+From V Require Import Lib.Base Lib.Cbor C29.Model.
 Local Open Scope N_scope.
 
 Definition lte_neg_infty (i : N) (j : option N) : bool :=
@@ -73,4 +73,28 @@ Fixpoint sentinel_free (start ttl : option N) (s : script) : bool :=
   match s with
   | All l | Any l | NofK _ l => forallb (sentinel_free start ttl) l
   | _ => negb (leaf_affected start ttl s)
+  end.
+
+(* the CDDL encoding of a script, minimal headers:
+   native_script = [0, addr_keyhash] / [1, [* native_script]] / [2, [* native_script]]
+                 / [3, n, [* native_script]] / [4, slot] / [5, slot]   (Dijkstra: [6, credential]) *)
+Fixpoint to_item (s : script) : item :=
+  match s with
+  | Pubkey h => Arr (Some Fimm) [UInt Fimm 0; BStr (min_form (N.of_nat (length h))) h]
+  | All l => Arr (Some Fimm) [UInt Fimm 1; Arr (Some (min_form (N.of_nat (length l)))) (map to_item l)]
+  | Any l => Arr (Some Fimm) [UInt Fimm 2; Arr (Some (min_form (N.of_nat (length l)))) (map to_item l)]
+  | NofK n l => Arr (Some Fimm) [UInt Fimm 3; UInt (min_form n) n; Arr (Some (min_form (N.of_nat (length l)))) (map to_item l)]
+  | InvalidBefore b => Arr (Some Fimm) [UInt Fimm 4; UInt (min_form b) b]
+  | InvalidHereafter b => Arr (Some Fimm) [UInt Fimm 5; UInt (min_form b) b]
+  | RequireGuard t h => Arr (Some Fimm) [UInt Fimm 6; Arr (Some Fimm) [UInt (min_form t) t; BStr (min_form 28) h]]
+  end.
+
+(* what the Go field types can hold *)
+Fixpoint representable (s : script) : bool :=
+  match s with
+  | All l | Any l => forallb representable l
+  | NofK n l => (n <? 2^64) && forallb representable l
+  | InvalidBefore b | InvalidHereafter b => b <? 2^64
+  | RequireGuard t h => (t <? 2^64) && (N.of_nat (length h) =? 28)
+  | Pubkey _ => true
   end.
